@@ -8,6 +8,7 @@ comparison; the correspondence run checks exactly that on the real operators wit
 -/
 import Cntgs.CompareProofs
 import Cntgs.EqProofs
+import Cntgs.FastPathProofs
 namespace Cntgs.C13
 
 /-- `!=` is the negation of `==` (`reference.hpp:151-163`, `vector.hpp:307-313`, `element.hpp:159-170`) -/
@@ -72,6 +73,15 @@ theorem vec_eq_iff_content_elementwise (ps : List Param) (fa fb : List Nat) (a b
     (hshape : a.map elemCounts = b.map elemCounts) :
     vecEq ps fa fb a b = some true ↔ a = b :=
   vecEq_iff_elementwise ps fa fb a b hgen hwa hwb hshape
+
+/-- vectors on the whole-buffer (memcmp) path, built with the same fixed sizes: equal exactly when they hold the same
+    number of elements with equal field sizes and equal field values -/
+theorem vec_eq_iff_content_fastpath (ps : List Param) (fa fb : List Nat) (a b : List Elem) (hne : ps ≠ [])
+    (hgen : (ps.all (·.ty.eqMemcmp) && storageAl ps == 1) = true) (hf : fixedSizesOf ps fa = fixedSizesOf ps fb)
+    (hwa : ∀ e ∈ a, e.length = ps.length ∧ InRange ps e) (hwb : ∀ e ∈ b, e.length = ps.length ∧ InRange ps e)
+    (hshape : a.map elemCounts = b.map elemCounts) :
+    vecEq ps fa fb a b = some true ↔ a = b :=
+  vecEq_iff_fastpath ps fa fb a b hne hgen hf hwa hwb hshape
 
 /-- whole-buffer path: vectors built with different fixed sizes are never equal unless one is empty — the bytes alone do
     not decide (the former code compared only the bytes) -/
